@@ -56,6 +56,10 @@ func lookupNode[T any](urlTree *URLTree[T], url string) lookupNodeResult[T] {
 	currentNode := urlTree.Root
 	var params map[string]string
 	var foundWildcardNode *Node[T]
+	// pattern and path parameters of the wildcard as it was declared, not of the deeper path
+	// the walk may still follow before falling back to it
+	var wildcardURLPath string
+	var wildcardParams map[string]string
 	urlPath := ""
 	for _, urlPart := range splitURL {
 		// a path wildcard ("host.com/*") does not extend the host: it is not remembered for a
@@ -63,6 +67,8 @@ func lookupNode[T any](urlTree *URLTree[T], url string) lookupNodeResult[T] {
 		if wildcardChild := currentNode.WildcardChild; wildcardChild != nil &&
 			(currentNode == urlTree.Root || wildcardChild.IsPartOfHost || !urlPart.IsPartOfHost) {
 			foundWildcardNode = wildcardChild
+			wildcardURLPath = urlPath + getDelimiter(urlPart) + wildcard
+			wildcardParams = copyParams(params)
 		}
 		child, found := currentNode.ConstantChildren[urlPart.Value]
 		if found && child.IsPartOfHost == urlPart.IsPartOfHost {
@@ -104,12 +110,11 @@ func lookupNode[T any](urlTree *URLTree[T], url string) lookupNodeResult[T] {
 
 		if foundWildcardNode != nil {
 			// Didn't find exact value, but found a matching wildcard
-			urlPath = urlPath + getDelimiter(urlPart) + wildcard
 			return buildLookupNodeResult(
 				true,
 				foundWildcardNode,
-				params,
-				urlPath,
+				wildcardParams,
+				wildcardURLPath,
 			)
 		}
 
@@ -123,15 +128,26 @@ func lookupNode[T any](urlTree *URLTree[T], url string) lookupNodeResult[T] {
 	// Exact value not found, check if node has wildcard child
 	if currentNode.WildcardChild != nil {
 		return buildLookupNodeResult(
-			true, currentNode.WildcardChild, params, urlPath)
+			true, currentNode.WildcardChild, params, urlPath+"/"+wildcard)
 	}
 	// Check if a matching wildcard was found in a parent node
 	if foundWildcardNode != nil {
-		return buildLookupNodeResult(true, foundWildcardNode, params, urlPath)
+		return buildLookupNodeResult(true, foundWildcardNode, wildcardParams, wildcardURLPath)
 	}
 
 	// No match found, return the node that was found with noMatch
 	return buildLookupNodeResult(false, currentNode, params, urlPath)
+}
+
+func copyParams(params map[string]string) map[string]string {
+	if params == nil {
+		return nil
+	}
+	copied := make(map[string]string, len(params))
+	for name, value := range params {
+		copied[name] = value
+	}
+	return copied
 }
 
 func getDelimiter(urlPart urlPart) string {
